@@ -53,6 +53,7 @@ FIXED_SIZES = [0, 1, 2, 10, 255, 4096, 65536]
 BIG_SIZES = [65535, 65537, 131072, 140001]
 MAX_ITER = 400
 MAX_IDLE = 12  # iterations without a byte written before the response is declared stuck
+MAX_READS = 3000  # read() calls per response (legitimately: one per 64 KiB batch and per part)
 
 
 def content(size, salt=0):
@@ -221,6 +222,29 @@ class Harness:
         self.flow_pauses = 0
         self.written_while_paused = 0
 
+        class BoundedReader:
+            """File object handed to the static producers: bounds the number of read() calls per response, so that a
+            producer looping without progress *inside* one resumeProducing() call becomes a logged failure instead
+            of a hung check (the harness cannot interrupt twisted code)."""
+
+            def __init__(s, f):
+                s._f, s._reads = f, 0
+
+            def read(s, n=-1):
+                s._reads += 1
+                if s._reads > MAX_READS:
+                    raise RuntimeError("harness guard: more than %d read() calls for one response (producer loops without progress)" % MAX_READS)
+                return s._f.read(n)
+
+            def __getattr__(s, name):
+                return getattr(s._f, name)
+
+        class GuardedFile(static.File):
+            def openForReading(s):  # documented override point of static.File
+                return BoundedReader(static.File.openForReading(s))
+
+        self.GuardedFile = GuardedFile
+
         class PausingTransport(SimTransport):
             """Pauses its (streaming) producer from inside write() once pause_threshold bytes are written."""
 
@@ -266,7 +290,7 @@ class Harness:
             from twisted.web import resource
 
             root = resource.Resource()
-            root.putChild(b"leaf.bin", self.static.File(path))  # ONE File object serves every request for it
+            root.putChild(b"leaf.bin", self.GuardedFile(path))  # ONE File object serves every request for it
             self.leaf_site = self.server.Site(root, reactor=self.Clock())
         self.leaf_content = data
         return data
@@ -280,7 +304,7 @@ class Harness:
         from twisted.python import failure
 
         if self.site is None:
-            self.site = self.server.Site(self.static.File(self.dir), reactor=self.Clock())
+            self.site = self.server.Site(self.GuardedFile(self.dir), reactor=self.Clock())
         ch = (self.leaf_site if leaf else self.site).buildProtocol(None)
         t = self.PausingTransport()
         ch.makeConnection(t)
@@ -413,7 +437,10 @@ def check(ctx, case, raw, failures, closed, escaped):
             except UnicodeDecodeError:
                 non_utf8 = True
         seek_failed = any(f[0] in ("OSError", "ValueError", "OverflowError") for f in failures)
-        if status == 500 and none_sat and cr == [b"bytes */%d" % size]:
+        if any("harness guard: more than" in f[1] for f in failures):
+            key = "producer-loops-without-progress"
+            what = "a static producer kept calling read() without making progress (the response can never finish)"
+        elif status == 500 and none_sat and cr == [b"bytes */%d" % size]:
             # the 416 had been prepared (its Content-Range is still on the 500): twisted, too, found no satisfiable range
             key = "multirange-none-satisfiable-500"
             what = "several (or zero) range specs, none satisfiable: 416 is prepared, then the producer fails and 500 is sent"
